@@ -24,7 +24,9 @@ def run(chk, replay=None):
     rows = vt.read_ndjson(trace)
     chk.cov["evaluations"] = len(rows)
     for k, e in enumerate(rows):
-        rs = e["rs"]
+        rs = e.get("rs")
+        if rs is None:
+            continue   # (an Abort event of a run that crashed: no specification accepts it, the validation below reports it)
         if sum(1 for i in range(len(rs) // 6) if rs[6 * i + 1] != 0) >= 2:
             chk.nontrivial((e["e"], e["T"], e.get("k", 0), tuple(rs)))
     chk.sample_each(rows, ("Comb", "CombHead", "CombBin", "CombBig"))
